@@ -248,12 +248,13 @@ def check(prog: Program, tier: str) -> Result:
     _r19_4(prog, res)
     _r19_5(prog, res)
     _r19_6(prog, res)
+    _r19_7(prog, res)
     # a renamed binding is rewritten as ONE transaction (R19.3); that only keeps definition and uses together if the
     # scheduler applies a transaction wholly or not at all - decided by the C10 check, adopted here
     from . import c10 as _c10
     res.adopt(_c10.check(prog, tier), {"R10.1", "R10.3", "R10.6"}, "R19.3",
               "a rename is consistent only if its transaction is applied as a whole or not at all")
-    res.floors.update({"R19.1": 8, "R19.2": 4, "R19.3": 2, "R19.4": 1, "R19.5": 1, "R19.6": 1})
+    res.floors.update({"R19.1": 8, "R19.2": 4, "R19.3": 2, "R19.4": 1, "R19.5": 1, "R19.6": 1, "R19.7": 2})
     res.analysed.update({"named_node_constructions_reaching_output": n_ctor, "guarded_name_generators": sorted(f"{a}.{b}" for a, b in gens)})
     return res
 
@@ -683,10 +684,58 @@ def _within(n, container) -> bool:
     return False
 
 
+def _r19_7(prog: Program, res: Result) -> None:
+    """Two small agreement rules around 'which references belong to the definition that is renamed or moved'.
+    (a) KIND of name: a set that is consulted with the name of a definition (`funcdef.name in S`) to decide whether its
+    references can all be rewritten must be fed names of that kind - the attribute of an access (`node.attr`), a
+    definition name - never the RECEIVER of an attribute access (`node.value.id`): in `shop.with_tax(1)` the receiver `shop`
+    says nothing about which member is used.  (b) CONTAINMENT by line numbers: a node on the last line of a block has
+    lineno == block.end_lineno, so `block.lineno < node.lineno < block.end_lineno` misses it - the upper comparison
+    against an end_lineno must not be strict."""
+    from ..defuse import bindings
+    n = 0
+    for fn in prog.funcs.values():
+        # (a)
+        consulted = {}
+        for c in walk_own(fn.node):
+            if isinstance(c, ast.Compare) and len(c.ops) == 1 and isinstance(c.ops[0], (ast.In, ast.NotIn)) and isinstance(c.comparators[0], ast.Name) \
+                    and isinstance(c.left, ast.Attribute) and c.left.attr == "name":
+                consulted.setdefault(c.comparators[0].id, c)
+        for c in walk_own(fn.node):
+            if isinstance(c, ast.Call) and isinstance(c.func, ast.Attribute) and c.func.attr == "add" and isinstance(c.func.value, ast.Name) \
+                    and c.func.value.id in consulted and c.args:
+                e = c.args[0]
+                n += 1
+                receiver = isinstance(e, ast.Attribute) and e.attr == "id" and isinstance(e.value, ast.Attribute) and e.value.attr == "value"
+                res.decide(not receiver, "R19.7", fn.loc(c), fn.fq, short(c, 70),
+                           f"feeds `{norm(e)}` to a set consulted with a definition name" if not receiver else
+                           f"`{norm(e)}` is the RECEIVER of an attribute access, but `{c.func.value.id}` is consulted with `{norm(consulted[c.func.value.id].left)}`: "
+                           "the member that is accessed (`.attr`) is what protects a definition, the receiver variable protects nothing - the method is moved / renamed and "
+                           "`obj.method` is left behind")
+        # (b)
+        for c in walk_own(fn.node):
+            if isinstance(c, ast.Compare):
+                operands = [c.left] + list(c.comparators)
+                for i, op in enumerate(c.ops):
+                    l, r = operands[i], operands[i + 1]
+                    for small, big, strict in ((l, r, isinstance(op, ast.Lt)), (r, l, isinstance(op, ast.Gt))):
+                        if isinstance(big, ast.Attribute) and big.attr == "end_lineno" and isinstance(small, ast.Attribute) and small.attr in ("lineno", "end_lineno") \
+                                and isinstance(op, (ast.Lt, ast.LtE, ast.Gt, ast.GtE)) and (isinstance(op, (ast.Lt, ast.LtE)) if small is l else isinstance(op, (ast.Gt, ast.GtE))):
+                            n += 1
+                            res.decide(not strict, "R19.7", fn.loc(c), fn.fq, short(c, 70),
+                                       "the last line of the block counts as inside" if not strict else
+                                       f"`{norm(small)} < {norm(big)}` excludes a node on the LAST line of the block: a reference there is not rewritten while the definition is moved")
+    if n == 0:
+        raise AnalysisError("R19.7: no instance found (anchor lost)")
+
+
 # ---------------------------------------------------------------------------------------------- self-test
 from ..selftest import Variant  # noqa: E402
 
 VARIANTS: List[Variant] = [
+    Variant("receiver-recorded-instead-of-member", "FIRE", "object_oriented", "                attributes_to_preserve.add(node.attr)  # x.f() may be a call of any method named f", "                attributes_to_preserve.add(node.value.id)", "R19.7"),
+    Variant("last-line-of-class-excluded", "FIRE", "object_oriented", "            if classdef.lineno < node.lineno <= classdef.end_lineno:  # The last line is part of it", "            if classdef.lineno < node.lineno < classdef.end_lineno:", "R19.7"),
+    Variant("class-containment-written-with-and", "SILENT", "object_oriented", "            if classdef.lineno < node.lineno <= classdef.end_lineno:  # The last line is part of it", "            if node.lineno > classdef.lineno and classdef.end_lineno >= node.lineno:"),
     Variant("unused-names-renamed-to-underscore-although-read", "FIRE", "fixes",
             "    if \"_\" in preserve or any(core.walk(root, ast.Name(id=\"_\", ctx=ast.Load))):\n        return\n", "    if \"_\" in preserve:\n        return\n", "R19.1"),
     Variant("duplicate-deleted-although-uses-not-redirected", "FIRE", "fixes",
